@@ -55,10 +55,6 @@ pharness! {
 }
 pharness! {
     #[kani::unwind(5)]
-    #[kani::stub(<ntp_proto::verif::packet::crypto::AesSivCmac512 as ntp_proto::Cipher>::decrypt, crate::common::aes512_decrypt_stub)]
-    #[kani::stub(<ntp_proto::verif::packet::crypto::AesSivCmac256 as ntp_proto::Cipher>::decrypt, crate::common::aes256_decrypt_stub)]
-    #[kani::stub(zeroize::barrier::optimization_barrier, crate::common::zeroize_barrier_stub)]
-    #[kani::stub(zeroize::volatile_set, crate::common::zeroize_volatile_set_stub)]
     #[kani::stub(ntp_proto::verif::packet::crypto::AesSivCmac256::try_from, crate::common::aes256_try_from_stub)]
     #[kani::stub(ntp_proto::verif::packet::crypto::AesSivCmac512::try_from, crate::common::aes512_try_from_stub)]
     fn c23_u_keyset() {
@@ -152,10 +148,6 @@ macro_rules! with_keyset {
     ($n:ident, $unw:expr, |$c:ident| $body:block) => {
         pharness! {
             #[kani::unwind($unw)]
-            #[kani::stub(<ntp_proto::verif::packet::crypto::AesSivCmac512 as ntp_proto::Cipher>::decrypt, crate::common::aes512_decrypt_stub)]
-            #[kani::stub(<ntp_proto::verif::packet::crypto::AesSivCmac256 as ntp_proto::Cipher>::decrypt, crate::common::aes256_decrypt_stub)]
-            #[kani::stub(zeroize::barrier::optimization_barrier, crate::common::zeroize_barrier_stub)]
-            #[kani::stub(zeroize::volatile_set, crate::common::zeroize_volatile_set_stub)]
             #[kani::stub(ntp_proto::verif::packet::crypto::AesSivCmac256::try_from, crate::common::aes256_try_from_stub)]
             #[kani::stub(ntp_proto::verif::packet::crypto::AesSivCmac512::try_from, crate::common::aes512_try_from_stub)]
             fn $n() {
